@@ -7,9 +7,13 @@ package server
 // read-only view of the timestamp store taken under tssMu.
 
 import (
+	"context"
+	"log/slog"
+	"net"
 	"time"
 
 	"example.com/scion-time/net/ntp"
+	"example.com/scion-time/net/ntske"
 )
 
 const (
@@ -90,4 +94,11 @@ func ResetV() {
 		tssQ[i] = nil
 	}
 	tssQ = tssQ[:0]
+}
+
+// RunNTSKEServerTLSV runs the NTS-KE accept loop on a TLS listener supplied by
+// the harness (e.g. in-memory connections under virtual time).
+func RunNTSKEServerTLSV(ctx context.Context, log *slog.Logger,
+	listener net.Listener, localPort int, provider *ntske.Provider) {
+	runNTSKEServerTLS(ctx, log, listener, localPort, provider)
 }
